@@ -94,3 +94,27 @@ func VerifH_C04_blockedList() {
 		}
 	}
 }
+
+// C05.S: size classes of the low-memory pool: every record size below 4 GiB maps to an existing pool,
+// monotonically, and an event goes back to the pool it came from.
+func VerifH_C05_poolSizeClasses() {
+	size := vf.Int("size", 0, 1<<32-1)
+	idx := poolIndex(size)
+	if vf.Param("twin", 0) == 1 {
+		vf.Assert(idx >= syncPools, "size-class-exists")
+		return
+	}
+	vf.Assert(idx >= 0 && idx < syncPools, "size-class-exists")
+	other := vf.Int("other-size", 0, 1<<32-1)
+	if other <= size {
+		vf.Assert(poolIndex(other) <= idx, "size-classes-are-monotone")
+	}
+	// the class boundaries are the powers of two
+	vf.Assert(size == 0 || (size >= 1<<(idx-1) && (idx == 63 || size < 1<<idx)), "class-is-the-bit-length")
+	pl := newLowMemoryEventPool(1)
+	e := pl.get(size)
+	vf.Assert(e.Size == size, "event-remembers-its-size")
+	pl.back(e)
+	vf.Assert(pl.inUse() == 0, "in-use-returns-to-zero")
+	vf.Reach("size-class-checked")
+}
